@@ -1121,6 +1121,25 @@ def gen_shared_state_table():
                 for a in _mutations(m, target):
                     if a not in rebinds:
                         cls_rows.append((rel, c.name, a, m.name))
+        # (a') a method that ASSIGNS a class attribute (`Class.attr = ...`, `cls.attr = ...` outside classmethod constructors, `type(self).attr = ...`,
+        # `self.__class__.attr = ...`): state shared by every instance (and, on a base class, by every subclass) - seed C01-r12
+        class_names = {c.name for c in ast.walk(t) if isinstance(c, ast.ClassDef)}
+        for c in ast.walk(t):
+            if not isinstance(c, ast.ClassDef):
+                continue
+            for m in c.body:
+                if not isinstance(m, (ast.FunctionDef, ast.AsyncFunctionDef)):
+                    continue
+                for x in ast.walk(m):
+                    if isinstance(x, (ast.Assign, ast.AugAssign)):
+                        for tg in (x.targets if isinstance(x, ast.Assign) else [x.target]):
+                            if isinstance(tg, ast.Attribute):
+                                v = tg.value
+                                shared = (isinstance(v, ast.Name) and v.id in class_names) or \
+                                         (isinstance(v, ast.Attribute) and v.attr == '__class__') or \
+                                         (isinstance(v, ast.Call) and isinstance(v.func, ast.Name) and v.func.id == 'type')
+                                if shared:
+                                    cls_rows.append((rel, c.name, tg.attr, m.name))
         # (b) module level
         g = set()
         for st in t.body:
